@@ -185,3 +185,127 @@ def to_smt2(assertions) -> str:
     for a in assertions:
         s.add(a)
     return s.to_smt2()
+
+
+def index_map(st, j, body, sort=None):
+    """The array  j -> body(j).  In proof mode a lambda; in bounded mode (every container has at most K elements) a finite chain of
+    stores over the indices 0..2K on a fresh array, which keeps the refutation queries free of lambdas so that the solver answers
+    with models instead of `unknown (incomplete theory array)`."""
+    K = st.cfg.get("ground")
+    if not K:
+        return z3.Lambda([j], body)
+    st.n_fresh += 1
+    arr = z3.Const(f"imap!{st.n_fresh}", sort if sort is not None else z3.ArraySort(j.sort(), body.sort()))
+    for x in range(2 * K + 2):
+        arr = z3.Store(arr, z3.IntVal(x), z3.substitute(body, (j, z3.IntVal(x))))
+    return arr
+
+
+def _sexprs(text):
+    """Minimal s-expression reader (atoms, |quoted symbols|, strings) -> nested lists of str."""
+    out, stack, i, n = [], [], 0, len(text)
+    cur = out
+    while i < n:
+        c = text[i]
+        if c.isspace():
+            i += 1
+        elif c == "(":
+            new = []
+            cur.append(new)
+            stack.append(cur)
+            cur = new
+            i += 1
+        elif c == ")":
+            cur = stack.pop()
+            i += 1
+        elif c == "|":
+            j = text.index("|", i + 1)
+            cur.append(text[i:j + 1])
+            i = j + 1
+        elif c == '"':
+            j = i + 1
+            while True:
+                j = text.index('"', j)
+                if j + 1 < n and text[j + 1] == '"':
+                    j += 2
+                    continue
+                break
+            cur.append(text[i:j + 1])
+            i = j + 1
+        else:
+            j = i
+            while j < n and not text[j].isspace() and text[j] not in "()":
+                j += 1
+            cur.append(text[i:j])
+            i = j
+    return out
+
+
+def _unparse(x):
+    return x if isinstance(x, str) else "(" + " ".join(_unparse(y) for y in x) + ")"
+
+
+def cli_guided_model(assertions, timeout_ms=20000):
+    """Second opinion for model search: the Debian z3 4.8.12 binary (/usr/bin/z3) often finds a model of array/lambda-heavy
+    formulas on which the 5.x library used here runs out of time.  Its model is not trusted: the values it gives to the declared
+    constants (arrays as lambdas) are added as extra constraints and the library solver decides the pinned formula itself.
+    Returns a z3 model of `assertions` (checked by the library solver) or None."""
+    import os, re, subprocess, tempfile
+    if not os.path.exists("/usr/bin/z3"):
+        return None
+    text = to_smt2(assertions)
+    header = text[:text.find("(assert")] if "(assert" in text else text
+    with tempfile.NamedTemporaryFile("w", suffix=".smt2", delete=False) as f:
+        f.write(text.replace("(check-sat)", "(check-sat)\n(get-model)"))
+        path = f.name
+    try:
+        p = subprocess.run(["/usr/bin/z3", f"-T:{max(1, timeout_ms // 1000)}", "model.compact=false", path], capture_output=True, text=True,
+                           timeout=timeout_ms / 1000 + 10)
+        out = p.stdout
+    except Exception:
+        return None
+    finally:
+        os.unlink(path)
+    if not out.startswith("sat"):
+        return None
+    try:
+        model = _sexprs(out[3:])[0]
+    except Exception:
+        return None
+    defs = {}
+    for d in model:
+        if isinstance(d, list) and len(d) == 5 and d[0] == "define-fun":
+            defs[d[1]] = (d[2], d[3], d[4])
+
+    def expand(x, depth=0):
+        if depth > 40:
+            raise ValueError("model too deep")
+        if isinstance(x, str):
+            return x
+        if len(x) == 3 and x[0] == "_" and x[1] == "as-array":
+            ps, _srt, body = defs[x[2]]
+            return ["lambda", ps, expand(body, depth + 1)]
+        return [expand(y, depth + 1) for y in x]
+    declared = set(re.findall(r"\(declare-fun (\|[^|]*\||\S+) \(\) ", header))
+    pins = []
+    for name, (ps, _srt, body) in defs.items():
+        if name in declared and ps == []:
+            try:
+                pins.append(f"(assert (= {name} {_unparse(expand(body))}))")
+            except Exception:
+                continue
+    if not pins:
+        return None
+    s = z3.Solver()
+    s.set("timeout", timeout_ms)
+    for a in assertions:
+        s.add(a)
+    for pin in pins:
+        try:
+            for a in z3.parse_smt2_string(header + pin):
+                s.add(a)
+        except z3.Z3Exception:
+            continue
+    if guarded_check(s, timeout_ms) == z3.sat:
+        return s.model()
+    return None
